@@ -17,4 +17,12 @@ if ! go build $TAGS $RACE -o "$BIN" ./cmd/check 2>/verif/out/build-$ID.log; then
   echo "BUILD-FAILED property=$ID (harness or /repo does not compile)"
   exit 3
 fi
+if [ "$ID" = "C15" ]; then
+  # the crash tests kill the shipped command-line server, built with the hooks
+  if ! (cd /repo && go build -tags verif -o /verif/bin/gofakes3-verif ./cmd/gofakes3) 2>>/verif/out/build-$ID.log; then
+    cat /verif/out/build-$ID.log
+    echo "BUILD-FAILED property=$ID (/repo/cmd/gofakes3 does not compile with -tags verif)"
+    exit 3
+  fi
+fi
 exec "$BIN" "$ID" --tier "$TIER" "$@"
